@@ -253,9 +253,24 @@ def valid_types_table(ctx):
     if vt is None:
         raise AnalysisError('FindResult.valid_types vanished')
     out = []
+
+    def display(e, depth=0):
+        """the list / tuple display behind `e`: itself, `list(X)` / `tuple(X)` of one, or a module-level constant that is one"""
+        if depth > 4:
+            return None
+        if isinstance(e, (ast.List, ast.Tuple)):
+            return e
+        if isinstance(e, ast.Call) and isinstance(e.func, ast.Name) and e.func.id in ('list', 'tuple') and len(e.args) == 1:
+            return display(e.args[0], depth + 1)
+        if isinstance(e, (ast.Name, ast.Attribute)):
+            sym = prog.resolve_expr_symbol(vt.module, e)
+            if isinstance(sym, tuple) and sym[0] == 'const':
+                return display(sym[1], depth + 1)
+        return None
     for n in iter_own_nodes(vt.node):
-        if isinstance(n, ast.Return) and isinstance(n.value, (ast.List, ast.Tuple)):
-            for e in n.value.elts:
+        d = display(n.value) if isinstance(n, ast.Return) and n.value is not None else None
+        if d is not None:
+            for e in d.elts:
                 sym = prog.resolve_expr_symbol(vt.module, e)
                 if isinstance(sym, ClassInfo):
                     out.append(sym)
@@ -418,6 +433,76 @@ def _len_test(test: ast.expr, subject: str, n: int) -> Optional[bool]:
     return None
 
 
+def _single_instance_gate_by_interpretation(ctx, fr: ClassInfo, gsi: FuncInfo):
+    """get_single_instance interpreted (dznverif.scenario, E6) on every result shape that matters: no item, one item of each
+    declaration kind, two items (same kind / different kinds), three items - without a hint and with each kind as hint.  The
+    method looks at its items only through len / indexing / isinstance, so these shapes stand for all results.  None when
+    the code cannot be interpreted (the guard-shape rule decides then)."""
+    from ..scenario import Interp, Obj, ClassRef, Raised, Undecided
+    prog = ctx.prog
+    try:
+        kinds = valid_types_table(ctx)
+    except AnalysisError:
+        return None
+    fe = prog.classes.get('dznpy.ast_view.FindError')
+    if fe is None or len(kinds) < 3:
+        return None
+
+    def is_find_error(name: str) -> bool:
+        c = prog.classes.get(name)
+        return c is not None and (c is fe or prog.is_subclass(c.fq, fe.fq))
+    bad = {'empty': [], 'many': [], 'kind': [], 'value': []}
+    n = 0
+    foreign = set()
+    ctx.__dict__['_gsi_foreign_exceptions'] = None
+    try:
+        for shape in ([], [0], [1], [0, 0], [0, 1], [0, 1, 2]):
+            for hint in [None] + list(range(len(kinds))):
+                it = Interp(prog)
+                items = [Obj(kinds[i % len(kinds)], {}) for i in shape]
+                res = Obj(fr, {'items': list(items)})
+                n += 1
+                try:
+                    got = it.call_function(gsi, [] if hint is None else [ClassRef(kinds[hint])], {}, self_val=res)
+                    raised = None
+                except Raised as exc:
+                    got, raised = None, exc.name
+                    if not is_find_error(exc.name):
+                        foreign.add(exc.name)
+                what = f'{len(items)} item(s) {[x.cls.name for x in items]}, hint {kinds[hint].name if hint is not None else None}'
+                if len(items) == 0:
+                    if raised is None or not is_find_error(raised):
+                        bad['empty'].append(f'{what}: ' + ('returns a value' if raised is None else f'raises {raised}'))
+                elif len(items) > 1:
+                    if raised is None or not is_find_error(raised):
+                        bad['many'].append(f'{what}: ' + ('returns a value' if raised is None else f'raises {raised}'))
+                else:
+                    fits = hint is None or items[0].cls is kinds[hint] or prog.is_subclass(items[0].cls.fq, kinds[hint].fq)
+                    if fits:
+                        if raised is not None or got is not items[0]:
+                            bad['value'].append(f'{what}: ' + (f'raises {raised}' if raised else 'hands out something else than the one item'))
+                    elif raised is None or not is_find_error(raised):
+                        bad['kind'].append(f'{what}: ' + ('returns the item' if raised is None else f'raises {raised}'))
+    except Undecided:
+        return None
+    ctx.__dict__['_gsi_foreign_exceptions'] = foreign
+    node = gsi.node
+    return [
+        ('unresolvable reference (0 matches)', not bad['empty'],
+         'an empty result is refused with FindError (interpreted on every result shape)' if not bad['empty'] else
+         'an empty result is not refused: ' + '; '.join(bad['empty'][:2]), node),
+        ('ambiguous reference (2+ matches)', not bad['many'],
+         'a result with several matches is refused with FindError' if not bad['many'] else
+         'several matches are let through: ' + '; '.join(bad['many'][:2]), node),
+        ('kind hint', not bad['kind'],
+         'a single match of another kind than the hint is refused with FindError' if not bad['kind'] else
+         'a declaration whose kind differs from the hint is not refused: ' + '; '.join(bad['kind'][:2]), node),
+        ('returned value', not bad['value'],
+         'the single match itself is handed out' if not bad['value'] else
+         'the single matching declaration is not handed out: ' + '; '.join(bad['value'][:2]), node),
+    ]
+
+
 def single_instance_gate(ctx) -> List[Tuple[str, bool, str, Any]]:
     """Findings (what, ok, message, node) about FindResult.get_single_instance: over the abstract lengths {0, 1, 2, many}
     of the COMPLETE result `self.items`, the dominating raising guards let only length 1 through; with a kind hint a
@@ -429,6 +514,9 @@ def single_instance_gate(ctx) -> List[Tuple[str, bool, str, Any]]:
     gsi = fr.methods.get('get_single_instance')
     if gsi is None:
         return [('get_single_instance', False, 'FindResult.get_single_instance vanished', None)]
+    sem = _single_instance_gate_by_interpretation(ctx, fr, gsi)
+    if sem is not None:
+        return sem
     guards = [s for s in gsi.node.body if isinstance(s, ast.If) and always_raises(s.body) and not s.orelse]
     lib = []
     for g in guards:
